@@ -222,27 +222,37 @@ def freeFileBlocks (v : Nat) (entry : Blk) : Prog RC := do
   for b in exts do setBlockFree v b
   return rcOK
 
-/-- `adfRemoveEntry(vol, pSect, name)` -/
-def removeEntry (v pSect : Nat) (name : Bytes) : Prog RC := do
+/-- the first half of `adfRemoveEntry`: find the entry, refuse what cannot be removed, take it out of its hash chain
+    (one block written: the directory or the chain predecessor); `some (parent, entry, nSect)` when the call goes on -/
+def removeEntryUnlink (v pSect : Nat) (name : Bytes) : Prog (RC × Option (Blk × Blk × Nat)) := do
   let vc ← getVolCfg v
   let (rc, parent) ← readEntryBlock v pSect
-  if rc ≠ rcOK then return rc
+  if rc ≠ rcOK then return (rc, none)
   let (ns, entry, nSect2) ← nameToEntryBlk v parent name
   match ns with
-  | none => return rcError
+  | none => return (rcError, none)
   | some nSect =>
-    if entry.secType = ST_DIR ∧ !isDirEmpty entry then return rcError
-    if entry.secType ≠ ST_FILE ∧ entry.secType ≠ ST_DIR then return rcError
+    if entry.secType = ST_DIR ∧ !isDirEmpty entry then return (rcError, none)
+    if entry.secType ≠ ST_FILE ∧ entry.secType ≠ ST_DIR then return (rcError, none)
     if nSect2 = 0 then
       let hv := hashName (useIntl vc.dosType) name
       let parent' := parent.setHash hv (entry.w F_nextSameHash)
       let rc ← writeEntryBlock v pSect parent'
-      if rc ≠ rcOK then return rc
+      if rc ≠ rcOK then return (rc, none)
     else
       let (rc, previous) ← readEntryBlock v nSect2
-      if rc ≠ rcOK then return rc
+      if rc ≠ rcOK then return (rc, none)
       let rc ← writeEntryBlock v nSect2 (previous.setW F_nextSameHash (entry.w F_nextSameHash))
-      if rc ≠ rcOK then return rc
+      if rc ≠ rcOK then return (rc, none)
+    return (rcOK, some (parent, entry, nSect))
+
+/-- `adfRemoveEntry(vol, pSect, name)` -/
+def removeEntry (v pSect : Nat) (name : Bytes) : Prog RC := do
+  let vc ← getVolCfg v
+  let (rc, cont) ← removeEntryUnlink v pSect name
+  match cont with
+  | none => return rc
+  | some (parent, entry, nSect) =>
     if entry.secType = ST_FILE then
       let rc ← freeFileBlocks v entry
       if rc ≠ rcOK then return rc
